@@ -328,10 +328,18 @@ func run(c *hl.Ctx) error {
 	}
 	r := c.Rand()
 	seqR, concR := c.Pick(2, 3), c.Pick(2, 4)
+	race := os.Getenv("D2V_RACE") != ""
+	if race {
+		// goja under the race detector is 10–20x slower: few cases, every one still rendered concurrently
+		seqR, concR = 1, 2
+	}
 	var batch []cfg
 	for i, s := range corpus {
+		if race && i >= 6 {
+			break
+		}
 		batch = append(batch, cfg{src: s, engine: []string{"dagre", "elk"}[i%2], sketch: i%3 == 0})
-		if c.Pick(0, 1) == 1 {
+		if c.Pick(0, 1) == 1 && !race {
 			batch = append(batch, cfg{src: s, engine: []string{"elk", "dagre"}[i%2], sketch: i%3 != 0})
 		}
 	}
@@ -342,7 +350,7 @@ func run(c *hl.Ctx) error {
 	}
 	n := c.Pick(4, 400)
 	if os.Getenv("D2V_RACE") != "" {
-		n = c.Pick(2, 48)
+		n = c.Pick(2, 10)
 	}
 	if c.Search && c.Tier != "thorough" {
 		n = 64
